@@ -95,10 +95,10 @@ def build_shim(cfg, extra_sources=(), tag="shim", extra_flags=()):
     """Build lib + shim into one shared object for configuration cfg. Returns path."""
     cxx, flags, use_asm = CONFIGS[cfg]
     shim_dir = os.path.join(VERIF, "shim")
-    shim_srcs = [os.path.join(shim_dir, "shim.cpp")] + list(extra_sources)
+    shim_srcs = sorted(os.path.join(shim_dir, f) for f in os.listdir(shim_dir) if f.endswith(".cpp")) + list(extra_sources)
     shim_deps = _files(VERIF, "shim", (".cpp", ".def", ".hpp", ".h"))
     h = tree_hash(shim_deps)
-    h.update(repr((cfg, cxx, flags, sorted(extra_flags), tag)).encode())
+    h.update(repr((cfg, cxx, flags, sorted(extra_flags), tag, [os.path.basename(x) for x in shim_srcs], "v2")).encode())
     key = h.hexdigest()[:20]
     out_dir = os.path.join(BUILD, "%s-%s-%s" % (tag, cfg, key))
     so = os.path.join(out_dir, "libjedi.so")
